@@ -580,11 +580,11 @@ func (x *c31Run) call(step string, f func()) {
 	if p != "" {
 		// a panic in the calling goroutine: in the node this goroutine has no recover, i.e. the process dies.
 		// Not a notarization; recorded as an observation.
-		key := x.sc.Path + "|" + x.sc.Mix.Class + "|" + firstLine(p)
+		key := x.sc.Path + "." + x.sc.Mix.Class
 		x.e.run.Count("c31.handler_panics", 1)
 		if !x.e.crashes[key] {
 			x.e.crashes[key] = true
-			x.e.run.Set("observations.panic."+key, fmt.Sprintf("%s: %s", step, p))
+			x.e.run.Set("observations.panic."+key, fmt.Sprintf("%s: %s", step, firstLine(p)))
 		}
 	}
 	x.judge(step)
